@@ -439,6 +439,10 @@ def _signature(it, v):
         o = Instance(ClassV('Signature', node=None))
         o.attrs['parameters'] = PyDict({n: n for n in names})
         return o
+    if isinstance(v, UFunc) and getattr(v, 'params', None) is not None:
+        o = Instance(ClassV('Signature', node=None))
+        o.attrs['parameters'] = PyDict({n: n for n in v.params})
+        return o
     if isinstance(v, Opaque) and '__signature__' in v.attrs:
         o = Instance(ClassV('Signature', node=None))
         o.attrs['parameters'] = v.attrs['__signature__']
